@@ -124,12 +124,17 @@ const (
 
 // entryModel the reference model of one (cache,key)
 type entryModel struct {
-	State   int
-	Ver     int64 // fetch id of the stored version
-	Created int64
-	T       int64
-	Until   int64 // hit-for-pass until (inclusive)
-	HFP     int64 // configured hit-for-pass seconds
+	// LenientFresh: a request that goes upstream although the model's entry is still fresh is not a
+	// refutation (premature refetches cost upstream requests - single flight, C01 - but do not serve
+	// anything stale); the model then simply follows the refetch. Counted in PrematureRefetches.
+	LenientFresh       bool
+	PrematureRefetches int
+	State              int
+	Ver                int64 // fetch id of the stored version
+	Created            int64
+	T                  int64
+	Until              int64 // hit-for-pass until (inclusive)
+	HFP                int64 // configured hit-for-pass seconds
 }
 
 func (m *entryModel) normalise(now int64) {
@@ -199,6 +204,12 @@ func (m *entryModel) burstCheck(now int64, results []*hx.Result, rawFetches []*h
 	}
 	switch m.State {
 	case stHit:
+		if len(fetches) != 0 && m.LenientFresh {
+			// follow the refetch: judge the burst as if the entry had been dropped just before it
+			m.PrematureRefetches++
+			m.State = stNone
+			return m.burstCheck(now, results, rawFetches, answerOf, checkAge)
+		}
 		if len(fetches) != 0 {
 			return "fresh_entry_refetched", fmt.Sprintf("model %s at now=%d but %d upstream contacts", m, now, len(fetches))
 		}
